@@ -50,7 +50,7 @@ Definition env_ok (n : node) (g : ghost) (a : action) : Prop :=
   | TruncateReq t h => t = n_term n ->
       matches (upto (trunc_target (n_wal n) (length (n_wal n)) h) (n_wal n)) t
   | SnapshotInstall _ t _ f => -1 <= t /\ (f <= 1)%nat
-  | BecomeLeaderReq _ | ClientWrite _ | LeaderSyncDone => False
+  | BecomeLeaderReq _ | ClientWrite _ | LeaderSyncDone | DeleteShardReq _ => False
   | _ => True
   end.
 
